@@ -54,9 +54,21 @@ macro_rules! fmt_stmt {
 pub fn remove_condition_parentheses(expression: Expression) -> Expression {
     match expression.to_owned() {
         Expression::Parentheses {
+            contained,
             expression: inner_expression,
-            ..
         } => {
+            // Only the comments trailing the closing parenthesis are carried over below: keep the parentheses
+            // (and with them every comment) if there are comments anywhere else around them
+            let (start_parens, end_parens) = contained.tokens();
+            if start_parens
+                .leading_trivia()
+                .chain(start_parens.trailing_trivia())
+                .chain(end_parens.leading_trivia())
+                .any(trivia_util::trivia_is_comment)
+            {
+                return expression;
+            }
+
             let (_, comments) = trivia_util::take_trailing_comments(&expression);
             inner_expression.update_trailing_trivia(FormatTriviaType::Append(comments))
         }
